@@ -1,34 +1,52 @@
-import TinsModel.Wire.Iface
+import TinsModel.Wire.Icmp.Icmp6
 /-
-  Family interface of `Icmp`: ICMP (+ RFC 4884 extensions), ICMPv6 (+ options), ICMPExtensionsStructure (stub: no class of this family is modelled yet).
+  Family interface of `Icmp`: ICMP (+ RFC 4884 extensions, ICMPExtensionsStructure) and ICMPv6 (+ options, MLD records).
   A family module exports, in namespace `Tins.Wire.Icmp`:
     Obj, classes, parse, info, hdr, trl, write, mk, apply   (see TinsModel/Wire/Iface.lean)
 -/
 namespace Tins.Wire.Icmp
 
 inductive Obj
-  | unit
+  | icmp (p : Icmp4)
+  | icmp6 (p : Icmp6)
 deriving Repr
 
 /-- C++ class names whose parsing constructor this family models -/
-def classes : List String := []
+def classes : List String := ["ICMP", "ICMPv6"]
 
-/-- the parsing constructor `cls(buffer, total_sz)` (or `from_bytes`) -/
-def parse (_cls : String) (_b : Bytes) : Out (Obj × Inner) := .throw .stdOther
+/-- the parsing constructor `cls(buffer, total_sz)` -/
+def parse (cls : String) (b : Bytes) : Out (Obj × Inner) :=
+  if cls == "ICMP" then (Icmp4.parse b) >>= fun (p, i) => pure (.icmp p, i)
+  else if cls == "ICMPv6" then (Icmp6.parse b) >>= fun (p, i) => pure (.icmp6 p, i)
+  else .throw .stdOther
 
 /-- (actual class name, getter dump) -/
-def info (_o : Obj) : String × Fields := ("", [])
+def info : Obj → String × Fields
+  | .icmp p => ("ICMP", p.fields)
+  | .icmp6 p => ("ICMPv6", p.fields)
 
-def hdr (_o : Obj) : Nat := 0
-def trl (_o : Obj) (_innerSize : Nat) : Nat := 0
+def hdr : Obj → Nat
+  | .icmp p => p.hdr
+  | .icmp6 p => p.hdr
+
+def trl : Obj → Nat → Nat
+  | .icmp p, n => p.trl n
+  | .icmp6 p, n => p.trl n
 
 /-- `write_serialization(buffer, total_sz)` on the layer's region -/
-def write (_cx : Ctx) (_o : Obj) (region : Bytes) : Out Bytes := .ok region
+def write (cx : Ctx) : Obj → Bytes → Out Bytes
+  | .icmp p, region => p.write cx region
+  | .icmp6 p, region => p.write cx region
 
 /-- public (non-parsing) constructors: `new <cls> args…` -/
-def mk (_cls : String) (_args : List String) : Out Obj := .throw .stdOther
+def mk (cls : String) (args : List String) : Out Obj :=
+  if cls == "ICMP" then (Icmp4.make args) >>= fun p => pure (.icmp p)
+  else if cls == "ICMPv6" then (Icmp6.make args) >>= fun p => pure (.icmp6 p)
+  else .throw .stdOther
 
 /-- one API call on the object: setters, add/remove option … -/
-def apply (_o : Obj) (_op : List String) : Out Obj := .throw .stdOther
+def apply : Obj → List String → Out Obj
+  | .icmp p, op => (p.apply op) >>= fun x => pure (.icmp x)
+  | .icmp6 p, op => (p.apply op) >>= fun x => pure (.icmp6 x)
 
 end Tins.Wire.Icmp
